@@ -405,6 +405,10 @@ variant("data-reader-named-var",
 	code, enhancedCode, msg := dataErrorToStatus(c.Session().Data(r))""", """	body := newDataReader(c)
 	r := body
 	code, enhancedCode, msg := dataErrorToStatus(c.Session().Data(r))"""))
+variant("envid-assign-no-shadow",
+  ("conn.go", """			value, err := decodeXtext(value)
+			if err != nil || value == "" || !isPrintableASCII(value) {""", """			value, err = decodeXtext(value)
+			if err != nil || value == "" || !isPrintableASCII(value) {"""))
 if sys.argv[1:] == ['--export']:
     out = [{"id": "benign-" + n, "edits": [{"file": f, "old": o, "new": w} for f, o, w in V[n]]} for n in V]
     json.dump(out, open('/verif/liveness/benign.json', 'w'), indent=1)
